@@ -283,6 +283,8 @@ def check(prog, rep):
         for x in w0.calls:
             if x.name.endswith('map_overlap') and x.args and x.args[0][0] == 'localfunc' and isinstance(x.args[0][2], Func):
                 kern = x.args[0][2]
+    from ..dasksites import check_declared_type
+    check_declared_type(rep, 'H8', site, entry)
     # ---- H0: same closure as the numpy branch
     np_calls = []
     for n in impl.own_nodes():
